@@ -122,15 +122,17 @@ prop(
               "every edge, height vs 5*log2(n+1)+20, node count) under adversarial growth orders with library-drawn priorities",
     level_text="Exploration: twelve adversarial growth/rotation workloads (sorted appends, front/middle insertion, "
                "split-and-swap rotations, remove/append cycles, sorted insertion via split_by, bulk merges, random mixes, "
-               "grow-shrink-grow) up to 2^19 (quick) / 2^21 (thorough) elements with the library's own priorities; at staged "
+               "grow-shrink-grow) up to 2^19 (quick) / 2^22 (thorough) elements with the library's own priorities; at staged "
                "checkpoints (n = 16, 64, 256, ... and after each phase) every parent-child edge is checked for heap order in "
                "one consistent direction and the height against 5*log2(n+1)+20. A degenerate priority source is reported "
                "at n=64..256, before recursion depth matters.",
     level_note="Trusted: the iterative walk. The bound is probabilistic for a correct treap (failure < 1e-15). A process death "
                "(stack exhaustion) is mapped to a violation for this property. Not covered: histories outside the driven orders.",
     runs=[
-        dict(engine="treapmon", profile="release", args=["--mode", "shape"], group="shape",
+        dict(engine="treapmon", profile="release", args=["--mode", "shape"], group="shape", tiers=("quick",),
              timeout=dict(quick=600, thorough=3600)),
+        dict(engine="treapmon", profile="release", args=["--mode", "shape", "--n", "4194304"], group="shape", tiers=("thorough",),
+             timeout=dict(quick=600, thorough=7200)),
     ],
     floor=dict(quick=24, thorough=24),
     counter_floors=dict(quick=dict(edges_checked=5_000_000, checkpoints=150), thorough=dict(edges_checked=20_000_000)),
@@ -145,7 +147,7 @@ prop(
     level="exploration",
     technique="differential runtime monitor: every table entry of Sieve::new(N) for every limit N compared with trial "
               "division / an independent Eratosthenes bit-sieve",
-    level_text="Exploration with an exhaustive sub-space: for EVERY limit N in 0..=12000 (quick) / 0..=30000 (thorough) a fresh "
+    level_text="Exploration with an exhaustive sub-space: for EVERY limit N in 0..=12000 (quick) / 0..=100000 (thorough) a fresh "
                "Sieve is built and all of min_prime, is_prime, primes and factorize(n) for every n<=N are compared with "
                "trial division, so every position of N relative to primes and prime squares is hit; limits adjacent to "
                "p, p^2, p*q up to 10^6 and the limits 10^6 (and 10^7) are compared element by element with an independent "
@@ -155,7 +157,7 @@ prop(
     runs=[
         dict(engine="sievemon", profile="release", args=["--every-max", "12000"], group="all",
              tiers=("quick",)),
-        dict(engine="sievemon", profile="release", args=[], group="all", tiers=("thorough",)),
+        dict(engine="sievemon", profile="release", args=["--every-max", "100000", "--adjacent-limits", "10000"], group="all", tiers=("thorough",)),
         dict(engine="sievemon", profile="dev", args=[], group="all",
              label="sievemon/dev (overflow + bounds checks on)"),
     ],
@@ -205,7 +207,8 @@ prop(
     level_note="Trusted: own Euclid and i128 arithmetic of the engine. lcm is judged only where |a*b| fits the type; the signed "
                "minimum is excluded (as the property states).",
     runs=[
-        dict(engine="gcdmon", profile="release", args=[], group="all"),
+        dict(engine="gcdmon", profile="release", args=[], group="all", tiers=("quick",)),
+        dict(engine="gcdmon", profile="release", args=["--calls", "1500000000"], group="all", tiers=("thorough",)),
         dict(engine="gcdmon", profile="dev", args=[], group="all", label="gcdmon/dev (overflow checks on)"),
     ],
     floor=dict(quick=4_000_000, thorough=100_000_000),
@@ -227,16 +230,18 @@ prop(
                "complete verification (every pair, every member's representative, forest invariant through the hook) after "
                "every operation; all op sequences up to a stated length on n<=5; eleven adversarial union orders (chains "
                "in both argument orders, binomial worst case through roots and through deepest elements, stars, "
-               "caterpillars, random with interleaved lookups) up to 2^17 (quick) / 10^6 (thorough) elements with staged "
+               "caterpillars, random with interleaved lookups) up to 2^17 (quick) / 4*10^6 (thorough) elements with staged "
                "depth checkpoints after 64, 256, 1024, ... unions so that a degenerating forest is reported long before "
                "recursion depth matters.",
     level_note="Trusted: the relabelling model and the compression-free union-find used above 4096 elements; the hook only "
                "exposes the parent and size arrays read-only. The depth bound is checked on the orders driven, not for all "
                "orders. Process death (stack exhaustion) counts as a violation for this property.",
     runs=[
-        dict(engine="dsumon", profile="release", args=["--mode", "random"], group="random"),
+        dict(engine="dsumon", profile="release", args=["--mode", "random"], group="random", tiers=("quick",)),
+        dict(engine="dsumon", profile="release", args=["--mode", "random", "--cases", "40000000"], group="random", tiers=("thorough",)),
         dict(engine="dsumon", profile="release", args=["--mode", "exhaustive"], group="exhaustive"),
-        dict(engine="dsumon", profile="release", args=["--mode", "adversarial"], group="adversarial"),
+        dict(engine="dsumon", profile="release", args=["--mode", "adversarial"], group="adversarial", tiers=("quick",)),
+        dict(engine="dsumon", profile="release", args=["--mode", "adversarial", "--n", "4000000"], group="adversarial", tiers=("thorough",)),
         dict(engine="dsumon", profile="dev", args=["--mode", "random", "--cases", "30000"], group="random",
              label="dsumon/dev/random (overflow + bounds checks on)"),
     ],
@@ -261,7 +266,8 @@ prop(
     level_note="Trusted: i128/u128 oracle arithmetic. Moduli not in the instantiated list are not executed (const generic). "
                "Division by non-coprime values is outside the property and never executed.",
     runs=[
-        dict(engine="mintmon", profile="release", args=[], group="all"),
+        dict(engine="mintmon", profile="release", args=[], group="all", tiers=("quick",)),
+        dict(engine="mintmon", profile="release", args=["--random-ops", "2000000000"], group="all", tiers=("thorough",)),
         dict(engine="mintmon", profile="dev", args=[], group="all", label="mintmon/dev (overflow checks on)"),
     ],
     floor=dict(quick=5_000_000, thorough=150_000_000),
@@ -285,7 +291,8 @@ prop(
     level_note="Trusted: the engine's checked i128 fraction arithmetic (self-checked; an oracle-side overflow is inconclusive). "
                "Magnitudes stay inside the property's bound so that necessary intermediates fit the type.",
     runs=[
-        dict(engine="ratmon", profile="release", args=[], group="all"),
+        dict(engine="ratmon", profile="release", args=[], group="all", tiers=("quick",)),
+        dict(engine="ratmon", profile="release", args=["--samples", "20000000"], group="all", tiers=("thorough",)),
         dict(engine="ratmon", profile="dev", args=[], group="all", label="ratmon/dev (overflow checks on)"),
     ],
     floor=dict(quick=500_000, thorough=2_000_000),
@@ -403,8 +410,10 @@ prop(
                "orders below the guard band). Circle::position is asserted only where the absolute and the relative reading "
                "of the tolerance agree. Coordinates of reported points stay within +-1e3.",
     runs=[
-        dict(engine="geomon", profile="release", args=["--mode", "lattice"], group="lattice"),
-        dict(engine="geomon", profile="release", args=["--mode", "real"], group="real"),
+        dict(engine="geomon", profile="release", args=["--mode", "lattice"], group="lattice", tiers=("quick",)),
+        dict(engine="geomon", profile="release", args=["--mode", "real"], group="real", tiers=("quick",)),
+        dict(engine="geomon", profile="release", args=["--mode", "lattice", "--cases", "300000000"], group="lattice", tiers=("thorough",)),
+        dict(engine="geomon", profile="release", args=["--mode", "real", "--cases", "300000000"], group="real", tiers=("thorough",)),
         dict(engine="geomon", profile="dev", args=["--mode", "real", "--cases", "200000"], group="real", label="geomon/dev/real"),
     ],
     floor=dict(quick=3_000_000, thorough=50_000_000),
